@@ -115,6 +115,7 @@ type pathResult struct {
 	Notes     []string    `json:"notes,omitempty"`
 	Decisions int         `json:"decisions"`
 	Steps     int64       `json:"steps"`
+	SchedLog  []string    `json:"sched_log,omitempty"`
 	newWork   [][]int
 	funcs     map[*ssa.Function]int
 	hasModel  bool
@@ -171,6 +172,10 @@ func runPath(p *program, cfg *Config, sv *solver, entry *ssa.Function, prefix []
 	res = &pathResult{Prefix: prefix}
 	defer func() {
 		r := recover()
+		if i.sched != nil {
+			i.sched.shutdown()
+		}
+		res.SchedLog = ex.schedLog
 		res.Decisions = ex.decisions
 		res.Steps = i.steps
 		res.newWork = ex.newWork
@@ -187,6 +192,9 @@ func runPath(p *program, cfg *Config, sv *solver, entry *ssa.Function, prefix []
 			res.Outcome = "return"
 		case pathAbort:
 			res.Outcome, res.Detail = r.kind, r.msg
+			if r.kind == "deadlock" {
+				res.Detail += " | schedule: " + strings.Join(ex.schedLog, "; ")
+			}
 		case engineError:
 			res.Outcome, res.Detail = "engine", r.msg
 		case targetPanic:
